@@ -104,11 +104,11 @@ def runAux (args : List String) : Option String :=
   match args with
   | "flt" :: rest =>
     (parseAll (pMany (pCodec [])) rest).map (fun cs =>
-      String.intercalate " " (["R"] ++ showList (filterUnattachedRTX cs) ++ ["V"] ++ showList (aliasedAfterFilter cs)))
+      String.intercalate " " (["R"] ++ showList (filterUnattachedRTX cs) ++ ["V"] ++ showList cs))
   | "tgc" :: rest =>
     (parseAll (do let e ← pMany (pCodec []); let p ← pMany (pCodec []); pure (e, p)) rest).map (fun (eng, prefs) =>
       String.intercalate " " (["R"] ++ showList (transceiverGetCodecs eng prefs)
-        ++ ["E"] ++ showList (if prefs.isEmpty then aliasedAfterFilter eng else eng)))
+        ++ ["E"] ++ showList eng))
   | _ => none
 
 def run (args : List String) : String :=
